@@ -21,9 +21,11 @@ Result values of `dispatch`: `.error c` = `prepare` answers S3 error `c` before 
 operation `op` is selected (then `C01_call_shape`: one typed hook, one backend call of `op`'s own
 method). In the first two cases no backend method is invoked.
 
-Not part of this composition (other properties / trusted): what `prepare` does between the two
-steps — query-string extraction, the signature check (C10), a custom route, the POST-multipart
-special case — and `http`/`hyper` handing over method, path, query and headers as modelled.
+What `prepare` does between the two steps — query-string extraction, the result of the signature
+check, a custom route, the POST-multipart special case, the `events` refusal, the access check — is
+modelled in `S3V/Model/Prepare.lean` and composed with this file in `S3V/Props/C01Prepare.lean`
+(`C01_intended_operation_reached_through_prepare`). Not part of either: the signature check itself
+(C05/C06/C10/C11) and `http`/`hyper` handing over method, path, query and headers as modelled.
 -/
 namespace S3V.C01
 open S3V S3V.Net S3V.Host S3V.Path S3V.PathSpec S3V.Gen S3V.Route S3V.RouteSpec S3V.RouteCompose S3V.C12
